@@ -291,6 +291,19 @@ Theorem c08_window_path_agrees : forall P texts l a from,
 Proof. exact window_path_agrees. Qed.
 Print Assumptions c08_window_path_agrees.
 
+(* S26 (fixed): before the fix the mr seek window was handed over as it was when its back-scan hit its bound (64 MiB /
+   100 000 frames), with fewer than `limit` messages although older ones exist: 40 messages, bound 12 frames, anchor the
+   newest: 12 messages in the bundle, the full replay gives 16 (replayed on the implementation with 18 messages of 5 MiB;
+   since the fix the bounded scan answers None and the caller falls back — re-read from the source: gen_window_accept_ok) *)
+Theorem c08_window_cap_refuted :
+  valid_log count_all_log = true /\ wf_refs count_all_log = true /\ cut_point count_all_log 40 = Some 40
+  /\ users (Some (compile_with code16 no_texts (mr_window_capped 16 12 count_all_log 40) (filter is_ckpt count_all_log) 40 40))
+     = map N.of_nat (seq 29 12)
+  /\ users (compile code16 no_texts count_all_log 40) = map N.of_nat (seq 25 16)
+  /\ mr_window_capped 16 16 count_all_log 40 = mr_window 16 count_all_log 40.
+Proof. exact window_cap_refuted. Qed.
+Print Assumptions c08_window_cap_refuted.
+
 Example c08_producers_example :
   option_map snd (tail_path 16 34 ex_log 58) = Some 60
   /\ tail_path 16 10 ex_log 58 = None
